@@ -447,8 +447,16 @@ def viol_context(path, c, ln, vrid=None, prop=None):
             # ... or a delete / unsubscribe event reached the client while its request for that id was outstanding
             ctx.append("revoked-while-pending:" + g[2])
     # a resource response (call/auth/new answered with a resource) is pending for these ids at the violation
+    # (the recorded finding needs the client to have held the resource before - through a reference - so that the gateway
+    # considers it sent: the resource must have been delivered to this connection in an earlier resource set)
+    def delivered_before(rid0):
+        for x in lines[:ln]:
+            h = x.split("\t")
+            if h[0] in ("RESP", "EV") and len(h) > 1 and h[1] == c and (("M~%s~" % rid0) in x or ("C~%s~" % rid0) in x or x.endswith("C~%s~" % rid0)):
+                return True
+        return False
     for rid0, n0 in pendres.items():
-        if n0 > 0:
+        if n0 > 0 and delivered_before(rid0):
             ctx.append("pending-resource-response:" + rid0)
             ctx.append("pending-resource-response")
     # earlier in this history the connection was sent events right after a get response (recorded finding
